@@ -210,6 +210,9 @@ type Mesh struct {
 // New creates an empty mesh.
 func New() *Mesh {
 	ms := &Mesh{seenHops: map[string]int{}}
+	// goroutines created before this mesh existed cannot work for it: the first Settle looks only if any was
+	// created since now (without this every new mesh paid for one snapshot of the whole process)
+	ms.lastCreated.Store(core.GoroutinesCreated())
 	if core.AsyncTree.Load() {
 		// The tree under test keeps workers of its own per router: end those of the mesh this driver used before
 		// (their managers are cancelled), or they pile up over thousands of meshes.
